@@ -194,7 +194,7 @@ def _split_candidates(terms):
         if (t.decl().kind() == z3.Z3_OP_SEQ_NTH or t.decl().name().startswith("seq.nth")) and z3.is_app(t.arg(0)) \
                 and t.arg(0).decl().kind() == z3.Z3_OP_SEQ_CONCAT:
             c = z3.simplify(t.arg(1) < z3.Length(t.arg(0).arg(0)))
-            if c.get_id() not in seen and not z3.is_true(c) and not z3.is_false(c):
+            if c.get_id() not in seen and not z3.is_true(c) and not z3.is_false(c) and "Length" in str(c)[:400]:
                 seen.add(c.get_id())
                 out.append(c)
         stack.extend(t.children())
@@ -260,12 +260,12 @@ def _discharge1(ob, timeout_ms=10000):
             if r == z3.unknown and fuel == 2:
                 # case split on the position of an element read in a concatenation (t < len(a) for (a ++ b)[t]): z3 does
                 # not always find it; each case is a plain query and both must be unsat
-                for cand in _split_candidates(terms)[:3]:
+                for cand in _split_candidates(terms)[:2]:
                     verdicts = []
                     for case in (cand, z3.Not(cand)):
                         s2 = z3.Solver()
-                        s2.set("timeout", timeout_ms)
-                        s2.set("rlimit", RLIMIT_PER_MS * timeout_ms)
+                        s2.set("timeout", max(timeout_ms // 2, 2000))
+                        s2.set("rlimit", RLIMIT_PER_MS * max(timeout_ms // 2, 2000))
                         s2.add(*terms)
                         s2.add(*axioms)
                         s2.add(case)
